@@ -12,6 +12,7 @@ import (
 	"github.com/consensys/gnark-crypto/ecc"
 	"github.com/consensys/gnark/frontend"
 	"github.com/consensys/gnark/frontend/cs/r1cs"
+	"github.com/consensys/gnark/frontend/cs/scs"
 	"github.com/consensys/gnark/logger"
 
 	"verifharness/gadget"
@@ -32,7 +33,11 @@ func main() {
 	}
 	in := inst.Load(inst.All()[0]).Restrict(k)
 	t0 := time.Now()
-	cs, err := frontend.Compile(ecc.BN254.ScalarField(), r1cs.NewBuilder, in.Clone().VerifierCircuit())
+	var nb frontend.NewBuilder = r1cs.NewBuilder
+	if len(os.Args) > 2 && os.Args[2] == "scs" {
+		nb = scs.NewBuilder
+	}
+	cs, err := frontend.Compile(ecc.BN254.ScalarField(), nb, in.Clone().VerifierCircuit())
 	if err != nil {
 		fmt.Println("compile error:", err)
 		os.Exit(1)
@@ -45,7 +50,7 @@ func main() {
 			fmt.Println(name, "witness error", err)
 			return
 		}
-		err = cs.IsSolved(w, gadget.CommitOverrides(cs)...)
+		err = cs.IsSolved(w, gadget.SolveOpts(cs)...)
 		fmt.Println(name, "solved:", err == nil, time.Since(t), mem())
 		if err != nil {
 			s := err.Error()
